@@ -97,7 +97,15 @@ def run_order(t1, e1, t2, e2, E1, E2, stages=True):
                                 np.ascontiguousarray(uniq), c2p, plane_point))
                 except AssertionError as e:  # the assert inside intersect_halfplanes
                     out["pts_exc"] = "AssertionError"
-    inter, (plane_f, poly) = hc.intersect_tetrahedron_pair(t1, e1, X1, t2, e2, X2, float(E1), float(E2))
+    try:
+        inter, (plane_f, poly) = hc.intersect_tetrahedron_pair(t1, e1, X1, t2, e2, X2, float(E1), float(E2))
+    except AssertionError:
+        # the `assert n_intersections < len(points)` of intersect_halfplanes (compiled code: raised after the loop)
+        out["raised"] = "AssertionError"
+        out["inter"] = False
+        out["plane"] = out.get("plane0", [float("nan")] * 4)
+        out["poly"] = None
+        return out
     out["inter"] = bool(inter)
     out["plane"] = L(plane_f)
     out["poly"] = None if poly is None else L(poly)
@@ -144,7 +152,24 @@ def run_bodies(c):
         b3 = make_body(c["warm"])
         for x, y, flag in ((b1, b2, False), (b2, b3, True), (b1, b3, False), (b3, b1, True)):
             hc.find_contact_surface(x, y, use_aabb_trees=flag)
-    cs = hc.find_contact_surface(b1, b2, use_aabb_trees=bool(c.get("use_aabb_trees", False)))
+    try:
+        cs = hc.find_contact_surface(b1, b2, use_aabb_trees=bool(c.get("use_aabb_trees", False)))
+    except AssertionError:
+        # find the tetrahedron pairs whose intersection raises, so that they can be judged as single pairs
+        tp1, tp2 = b1.tetrahedra_points, b2.tetrahedra_points
+        ep1, ep2 = b1.tetrahedra_potentials, b2.tetrahedra_potentials
+        bad = []
+        if len(tp1) * len(tp2) <= 40000:
+            X1a, X2a = hc.barycentric_transforms(tp1), hc.barycentric_transforms(tp2)
+            for i in range(len(tp1)):
+                for j in range(len(tp2)):
+                    try:
+                        hc.intersect_tetrahedron_pair(A(tp1[i]), A(ep1[i]), A(X1a[i]), A(tp2[j]), A(ep2[j]), A(X2a[j]),
+                                                      float(b1.youngs_modulus), float(b2.youngs_modulus))
+                    except AssertionError:
+                        if len(bad) < 8:
+                            bad.append(dict(i=i, j=j, t1=L(tp1[i]), e1=L(ep1[i]), t2=L(tp2[j]), e2=L(ep2[j])))
+        return dict(raised="AssertionError", raising_pairs=bad, E=[float(b1.youngs_modulus), float(b2.youngs_modulus)])
     w12, w21 = fo.accumulate_wrenches(cs, b1, b2)
     out = dict(intersection=bool(cs.intersection), w12=L(w12), w21=L(w21),
                frame2world=L(cs.frame2world), n_tets=[len(b1.tetrahedra_), len(b2.tetrahedra_)],
